@@ -1,7 +1,37 @@
-/- Driver glue for C09: case lines `c09.<sub> <args…> | <impl…>` (stub until the property is built) -/
+/-
+  Driver glue for C09. Case line:
+    c09.trace <workers> <count> <bytes> <retry> <retentionMs> <dqmode> <dqworkers> <dqcount> <adders> <seed>
+              <nev> (<size> <kind>)*nev <nscript> (<fails>)* | <trace tokens>
+  The trace is the implementation result; the model replays it (Model/RetryTrace.lean);
+  `P` is SpecC09.holds on the observed trace.
+-/
 import FileD.Prelude.Tok
+import FileD.Model.RetryTrace
+import FileD.Spec.C09
 namespace FileD.DrvC09
+open FileD Tok Batcher Retry
 
-def handle (_cmd : String) (_args _impl : List String) : Option (String × String) := none
+def handle (cmd : String) (args impl : List String) : Option (String × String) :=
+  if cmd ≠ "c09.trace" then none else
+  match args with
+  | w :: cnt :: byt :: rt :: _ret :: dqm :: dqw :: dqc :: _ => do
+    let workers ← nat? w
+    let maxCount ← nat? cnt
+    let maxBytes ← nat? byt
+    let retry ← int? rt
+    let dqmode ← nat? dqm
+    let dqworkers ← nat? dqw
+    let dqcount ← nat? dqc
+    let mc : Cfg := { workers, maxCount, maxBytes, timeout := 10, enqueueLocked := true }
+    let dc : Cfg := { workers := dqworkers, maxCount := dqcount, maxBytes := 0, timeout := 10, enqueueLocked := true }
+    let rc : RCfg := { attemptNum := retry, dq := dqmode != 0 }
+    match parseCTks (impl.length + 1) impl with
+    | none => pure ("bad-trace", "bad-impl")
+    | some tks =>
+      let m := renderReplayC (replayAll mc dc rc { main := { st := init mc }, dq := { st := init dc } } tks 0 [])
+      let conf : SpecC09.Conf := { mainCount := maxCount, mainBytes := maxBytes, dqCount := dqcount, attemptNum := retry, dq := dqmode != 0 }
+      let p := if SpecC09.holds conf tks then "ok" else "fail"
+      pure (m, p)
+  | _ => none
 
 end FileD.DrvC09
